@@ -442,11 +442,13 @@ def rule_partial(model):
     rb = RuleResult('C06.R3b', 'subscripts of tag-parameter dictionaries '
                     'are dominated by a membership test or a store of that '
                     'key')
-    for fi in compile_funcs(model):
-        dicts = _param_dicts(model, fi)
+    mi_ = model.inlined_view()
+    _cg(mi_)
+    for fi in compile_funcs(mi_):
+        dicts = _param_dicts(mi_, fi)
         if not dicts:
             continue
-        dom = KeyDomain(model, fi, dicts)
+        dom = KeyDomain(mi_, fi, dicts)
         it = Interp(dom, max_states=60000)
         it.run(fi.node, KS())
         if it.overflow:
@@ -602,6 +604,16 @@ class KeyDomain(Domain):
                         kt = _keytext(t.slice)
                         facts.discard((norm(t.value), kt))
                         changed = True
+        # key alias:  given_as = ''  /  given_as = attr  -- what is known
+        # about the key on the right holds for the name on the left
+        if isinstance(stmt, ast.Assign) and len(stmt.targets) == 1 and \
+                isinstance(stmt.targets[0], ast.Name) and isinstance(
+                    stmt.value, (ast.Constant, ast.Name)):
+            kt = _keytext(stmt.value)
+            for d_, k_ in list(facts):
+                if k_ == kt:
+                    facts.add((d_, '$' + stmt.targets[0].id))
+                    changed = True
         if changed:
             st = KS(frozenset(facts))
         return st
